@@ -327,3 +327,13 @@ Definition dir_history (g : cfg) (h : list (orec dop dres)) : Prop :=
   exists tr, stamped 0 tr /\ h = ops_of (erase tr) /\
     if cfg_unsync g then exists st', urun g (cinit, []) tr = Some st'
     else exists st', arun (cstep_r g) (cinit, []) tr st'.
+
+(* ---------- the identifiers of a concurrent history ---------- *)
+(* the ids the completed registerService calls of a history were handed, in list order *)
+Definition hist_ids (h : list (orec dop dres)) : list N :=
+  flat_map (fun x => match o_op x, o_ret x with
+                     | ORegister _, Some (_, RId id) => [id]
+                     | _, _ => []
+                     end) h.
+Fixpoint nodupb (l : list N) : bool :=
+  match l with [] => true | x :: r => negb (existsb (N.eqb x) r) && nodupb r end.
